@@ -138,6 +138,13 @@ fn case_json(size: usize, e: End, op: &str, addr: usize, extra: Value) -> Value 
 }
 
 /// The whole grid for one (size, endian). Returns the first violation of each kind.
+fn e_dummy(gc: &GridCase) -> End {
+    gc.e
+}
+fn e_of(e: End) -> End {
+    e
+}
+
 fn run_grid(gc: &GridCase, tier: Tier, t: &mut Tally, only: Option<(&str, usize)>) -> Vec<(String, String, Value)> {
     let (size, e) = (gc.size, gc.e);
     let base = base_content(size, e);
@@ -149,7 +156,23 @@ fn run_grid(gc: &GridCase, tier: Tier, t: &mut Tally, only: Option<(&str, usize)
             }
         }
     };
+    // building the base archive uses only in-range writes: if that fails the property is
+    // already violated (an in-range access was rejected)
+    if let Err(e) = util::catch(|| arch::build(&base, None)).map_err(|p| p.message).and_then(|r| r) {
+        out.push(("in-range-write-rejected:base-archive".into(), format!("building a {}-byte archive with write_bytes(0, ..), write_string, write_pointer, write_label failed: {}", size, e), case_json(size, e_of(e_dummy(gc)), "build", 0, json!("base"))));
+        return out;
+    }
     let fresh = || arch::build(&base, None).expect("build base");
+    // the observation the whole grid relies on: the full-range read and every in-range
+    // annotation read must succeed on the untouched base archive
+    {
+        let o = arch::observe(&fresh());
+        let d = arch::diff_obs(&o, &base);
+        if !d.is_empty() {
+            out.push(("in-range-access-rejected:base-archive".into(), format!("observing an untouched {}-byte archive through in-range reads disagrees with what was written: {}", size, d.join("; ")), case_json(size, e, "observe", 0, json!("base"))));
+            return out;
+        }
+    }
     let want = |op: &str, addr: usize| only.map_or(true, |(o, a)| o == op && a == addr);
     for &addr in &addresses(size) {
         // ---- typed reads and writes
@@ -453,7 +476,7 @@ const WVAL: [u32; 7] = [0x5A, 0xA5, 0x1234, 0xFEDC, 0x0102_0304, 0xF1E2_D3C4, 0x
 
 impl CSys {
     fn rebuild(&self, hist: &[Cop]) -> (BinArchive, usize, usize) {
-        let mut a = arch::build(&self.init, None).expect("build");
+        let mut a = arch::build(&self.init, None).expect("building the 9-byte cursor archive failed (in-range writes rejected)");
         let (mut rc, mut wc) = (0usize, 0usize);
         for op in hist {
             let _ = apply_cop(&mut a, &mut rc, &mut wc, op);
